@@ -13,7 +13,23 @@ pub fn scratch_root() -> PathBuf {
     } else {
         std::env::temp_dir()
     };
-    base.join(format!("verif-{}", std::process::id()))
+    let own = base.join(format!("verif-{}", std::process::id()));
+    // worker processes live inside the scratch root of the process that started them, so that a
+    // killed worker leaves nothing behind once the parent cleans up
+    match std::env::var_os("VERIF_SCRATCH_PARENT") {
+        Some(p) if Path::new(&p) != own && Path::new(&p).is_dir() => PathBuf::from(p).join(format!("w{}", std::process::id())),
+        _ => own,
+    }
+}
+
+/// Called once by the top-level process before it starts workers.
+pub fn announce_scratch_root() {
+    if std::env::var_os("VERIF_SCRATCH_PARENT").is_none() {
+        let r = scratch_root();
+        let _ = std::fs::create_dir_all(&r);
+        // SAFETY: called at the very start of main, before any thread exists.
+        unsafe { std::env::set_var("VERIF_SCRATCH_PARENT", &r) };
+    }
 }
 
 pub fn cleanup_scratch_root() {
